@@ -32,6 +32,7 @@ class VTime:
 
     def time(self):
         w = self._w
+        w.ticks += 1
         if w.clock_steps:
             w.now += w.clock_steps.pop(0)
             w.count('clock_step')
@@ -113,6 +114,7 @@ class World:
         self.now = float(epoch)
         self.epoch = float(epoch)
         self.slept = 0.0
+        self.ticks = 0
         self.clock_steps = []
         self.writes = 0
         self.printed = 0
@@ -139,7 +141,8 @@ class World:
 
     @property
     def simulated_seconds(self):
-        return self.now - self.epoch
+        # simulated time that passed through sleeps and clock reads (injected clock jumps excluded)
+        return self.slept + 1e-4 * self.ticks
 
 
 # ------------------------------------------------------------------------------------------------
